@@ -34,7 +34,9 @@ def _setup(ctx, is_method, lookup_table):
     for k in ctor[0].keywords:
         if k.arg:
             passed[k.arg] = k.value
-    analysis = Record(is_method=is_method)
+    # the signature analysis the rewriter consults: which names are positional parameters (position numbers) and
+    # which are keyword-only (their own name), as the analyser files them
+    analysis = Record(is_method=is_method, name_to_positions={"P0": {0}, "P1": {1}, "P2": {2}, "K0": {"K0"}, "K1": {"K1"}})
     kwargs = {}
     rparams = rc.params
     for p, expr in passed.items():
@@ -202,6 +204,24 @@ def scenario_table(ctx):
     for name, kw in (("cn-starred", dict(star=True)), ("cn-double-star", dict(dstar=True))):
         rw, node, res, hi = rewrite(ctx, "CN", **kw)
         out[name] = (node, res)
+    # a positional-or-keyword parameter given by keyword: f(a0, P1=v)
+    for name, callee in (("kw-names-positional", "REC"), ("cn-kw-names-positional", "CN")):
+        rw, node, res, hi = rewrite(ctx, callee, lookup={1: "SUBTLER"}, args=("A0",), kws=(("P1", "V1"),))
+        out[name] = (node, res)
+    # ... and out of positional order: f(P1=v1, P0=v0)
+    for name, callee in (("kw-names-positional-out-of-order", "REC"), ("cn-kw-names-positional-out-of-order", "CN")):
+        rw, node, res, hi = rewrite(ctx, callee, args=(), kws=(("P1", "V1"), ("P0", "V0")))
+        out[name] = (node, res)
+    # bare references inside a method
+    for name, ident in (("method-name-recurse", "REC"), ("method-name-self", "SELFNAME")):
+        rw, hi, self_obj = _setup(ctx, True, {})
+        nm = ast.Name(id=ident, ctx=ast.Load())
+        nm.lineno, nm.col_offset = 3, 0
+        try:
+            res = hi.call_method("visit_Name", nm)
+        except Raised as r:
+            res = ("raised", r.what)
+        out[name] = (nm, res)
     # bare references
     for name, ident in (("name-recurse", "REC"), ("name-self", "SELFNAME"), ("name-call_next", "CN"), ("name-other", "foo")):
         rw, hi, self_obj = _setup(ctx, False, {})
@@ -298,6 +318,91 @@ def law_call_shapes(ctx):
         if res is node:
             extra = " (the node is returned as is: recurse references in the callee or in nested arguments are left unrewritten)"
         ctx.ob(f"{m.key}:bail-out:{name}", loc, text, ok, why + extra)
+    # a keyword that names a positional parameter must not be filed by name
+    def filed_by_name(res, names):
+        return isinstance(res, ast.Call) and isinstance(res.func, ast.Subscript) and any(isinstance(e, ast.Tuple) and e.elts and isinstance(e.elts[0], ast.Constant) and e.elts[0].value in names for e in ast.walk(res.func.slice))
+
+    def filed_by_position(res, node, is_cn):
+        """rewritten as f(a0, v1): two positional key elements in source order, position 1 keyed by the selector's choice
+        for position 1, both passed positionally from their temporaries"""
+        if not (isinstance(res, ast.Call) and isinstance(res.func, ast.Subscript)):
+            return None
+        elts = list(res.func.slice.elts) if isinstance(res.func.slice, ast.Tuple) else [res.func.slice]
+        if is_cn and elts and isinstance(elts[0], ast.Name):
+            elts = elts[1:]
+        srcs = [node.args[0], node.keywords[0].value]
+        if len(elts) != 2 or res.keywords:
+            return False
+        temps = []
+        for e, a in zip(elts, srcs):
+            if not (isinstance(e, ast.Call) and isinstance(e.func, ast.Name) and len(e.args) == 1 and isinstance(e.args[0], ast.NamedExpr) and _is_marker(e.args[0].value, "visited", a)):
+                return False
+            temps.append(e.args[0].target.id)
+        if elts[1].func.id != "__SUBTLER_TYPE" and elts[1].func.id != "SUBTLER" and "SUBTLER" not in elts[1].func.id.upper():
+            return False
+        passed = [x.id for x in res.args if isinstance(x, ast.Name) and x.id != "self"]
+        return passed == temps
+
+    for which, is_cn in (("kw-names-positional", False), ("cn-kw-names-positional", True)):
+        node, res = t[which]
+        fp = filed_by_position(res, node, is_cn)
+        if fp is not None:
+            ctx.ob(
+                f"{m.key}:keyword-names-positional-filed-by-position:{'call_next' if is_cn else 'recurse'}",
+                loc,
+                "a positional parameter given by keyword right after the positional arguments is evaluated in source order, keyed by the key function of its position and passed positionally",
+                fp,
+                "the keyword is moved into a positional slot but keyed with another position's key function, evaluated out of order or passed from another temporary",
+            )
+    node, res = t["kw-names-positional-out-of-order"]
+    ctx.ob(
+        f"{m.key}:bail-out:keyword-names-positional-out-of-order",
+        loc,
+        "recurse(p1=v1, p0=v0) (positional parameters by keyword, not in positional order) is left to the entry point",
+        _is_marker(res, "generic_visit", node) or not filed_by_name(res, ("P0", "P1")),
+        "the rewritten call files positional parameters under their names: no method is filed that way",
+    )
+    node, res = t["cn-kw-names-positional-out-of-order"]
+    cn_ooo = filed_by_name(res, ("P0", "P1"))
+    ctx.ob(
+        f"{m.key}:call_next-keyword-names-positional-out-of-order-{'by-name' if cn_ooo else 'handled'}",
+        loc,
+        "call_next(p1=v1, p0=v0) does not file positional parameters under their names",
+        not cn_ooo,
+        "call_next files positional parameters given by keyword out of positional order under their names: no continuation entry matches and the call ends in 'No method'",
+    )
+    node, res = t["kw-names-positional"]
+    by_name = isinstance(res, ast.Call) and isinstance(res.func, ast.Subscript) and any(isinstance(e, ast.Tuple) and e.elts and isinstance(e.elts[0], ast.Constant) and e.elts[0].value == "P1" for e in ast.walk(res.func.slice))
+    ctx.ob(
+        f"{m.key}:bail-out:keyword-names-positional",
+        loc,
+        "recurse(a, p=v) where p is a positional-or-keyword parameter is not looked up under the name p (the table files it by position): it is left to the entry point or filed by position",
+        not by_name,
+        "the rewritten call looks the method up under ('p', type): no method is filed that way, so the call ends in 'No method' although calling the function with p=v works",
+    )
+    node, res = t["cn-kw-names-positional"]
+    cn_by_name = isinstance(res, ast.Call) and isinstance(res.func, ast.Subscript) and any(isinstance(e, ast.Tuple) and e.elts and isinstance(e.elts[0], ast.Constant) and e.elts[0].value == "P1" for e in ast.walk(res.func.slice))
+    ctx.ob(
+        f"{m.key}:call_next-keyword-names-positional-{'by-name' if cn_by_name else 'handled'}",
+        loc,
+        "call_next(a, p=v) where p is a positional-or-keyword parameter is not looked up under the name p",
+        not cn_by_name,
+        "call_next files a positional parameter given by keyword under its name: no continuation entry matches and the call ends in 'No method'",
+    )
+    # inside a method a reference that is not a direct call is bound to self
+    bound = []
+    for which in ("method-name-recurse", "method-name-self"):
+        nm_, r_ = t[which]
+        ok_b = isinstance(r_, ast.Call) and isinstance(r_.func, ast.Attribute) and r_.func.attr == "__get__" and isinstance(r_.func.value, ast.Name) and r_.func.value.id == "OVLD_G" and len(r_.args) == 1 and isinstance(r_.args[0], ast.Name) and r_.args[0].id == "self"
+        ok_b = ok_b or (isinstance(r_, ast.Call) and call_name(r_) in ("functools.partial", "partial") and len(r_.args) == 2 and isinstance(r_.args[0], ast.Name) and r_.args[0].id == "OVLD_G" and isinstance(r_.args[1], ast.Name) and r_.args[1].id == "self")
+        bound.append(ok_b)
+    ctx.ob(
+        f"{m.key}:method-reference-bound-to-self",
+        loc,
+        "in a method, recurse (or the own name) used as a value, or called through the generic path (*args, **kwargs), stands for the function bound to self",
+        all(bound),
+        "the reference is replaced by the bare entry point: map(recurse, xs) or recurse(*xs) inside a method runs without self",
+    )
     accepted = True
     node, res = t["cn-starred"]
     nm, nres = t["name-call_next"]
